@@ -16,7 +16,8 @@ RULE = ("malformed stream (delimiter soups, empty brackets, empty hosts with por
         "both constructor modes with every accessor observed, and random build()/modifier/join programs; predicate: no "
         "exception other than ValueError/TypeError anywhere in the observation, and str() succeeds on every object "
         "returned in auto-encoding mode; the public cache entry points (cache_configure with every kind of documented size, then "
-        "use, cache_info, cache_clear, cache_configure()) on the implementation only; distinct = distinct program")
+        "use, cache_info, cache_clear, cache_configure()) and integers beyond the range of a double as query values on the implementation only; "
+        "escapes whose hex letters differ in case; distinct = distinct program")
 
 
 
